@@ -4,7 +4,7 @@ set -u
 dir=$1; prop=$2; tier=${3:-quick}
 cd /repo || exit 2
 if ! git diff --quiet; then echo "repo dirty"; exit 2; fi
-if ! git apply --3way "$dir/patch.diff" 2>/tmp/seed_apply.err; then echo "patch does not apply: $(head -3 /tmp/seed_apply.err)"; git checkout -- . ; exit 3; fi
+if ! git apply --3way "$dir/patch.diff" 2>/tmp/seed_apply.err; then echo "patch does not apply: $(head -3 /tmp/seed_apply.err)"; git reset -q --hard HEAD; exit 3; fi
 git reset -q
 cd /verif
 VERIF_SEED=${VERIF_SEED:-1} ./vcheck run "$prop" "$tier" | tail -6
